@@ -79,8 +79,20 @@ def strategy(draw):
         if cols:
             c = dict(draw(st.sampled_from(cols)), drop_invalid_rows=True)
             spec = {"kind": "column", "columns": [c]}
+    # a parser that changes nothing here (abs of non-negative numbers): the rows are dropped on the parsed data path
+    tcs = {t["name"]: t for t in case["table"]["columns"]}
+    for c in spec["columns"]:
+        t = tcs.get(c["name"])
+        if (t is not None and not c.get("regex") and t["phys"] in ("int64", "float64") and c.get("dtype") in ("int64", "float64")
+                and all(v is None or v >= 0 for v in t["cells"]) and draw(st.integers(0, 3)) == 0):
+            c["parsers"] = [{"kind": draw(st.sampled_from(["abs", "abs_inplace"]))}]
     spec["drop_invalid_rows"] = True
-    return {"spec": spec, "table": case["table"]}
+    out = {"spec": spec, "table": case["table"]}
+    if case["table"].get("index") is None and not spec.get("index") and draw(st.integers(0, 3)) == 0:
+        # row labels of other kinds than the default range (the schema says nothing about the index): rows are dropped by
+        # label, so the labels named by the errors have to find their rows again whatever type they are
+        out["labels"] = draw(st.sampled_from(["tz", "tz", "naive-dt", "td", "cat", "float", "str", "date-objects", "period"]))
+    return out
 
 
 def _ref(spec, table):
@@ -110,6 +122,22 @@ def evaluate(case):
         return ev
     schema = sp.pandas_schema(spec)
     data = sp.pandas_series(table) if spec.get("kind") == "series" else sp.pandas_frame(table)
+    if case.get("labels"):
+        import datetime
+        import pandas as pd
+
+        m = len(data)
+        data.index = {
+            "tz": lambda: pd.date_range("2020-01-01", periods=m, freq="D", tz="Europe/Berlin"),
+            "naive-dt": lambda: pd.date_range("2020-01-01", periods=m, freq="h"),
+            "td": lambda: pd.to_timedelta(list(range(m)), unit="s"),
+            "cat": lambda: pd.CategoricalIndex(["k%d" % i for i in range(m)]),
+            "float": lambda: pd.Index([i + 0.5 for i in range(m)]),
+            "str": lambda: pd.Index(["r%d" % i for i in range(m)]),
+            "date-objects": lambda: pd.Index([datetime.date(2020, 1, 1) + datetime.timedelta(days=i) for i in range(m)], dtype=object),
+            "period": lambda: pd.period_range("2020-01", periods=m, freq="M"),
+        }[case["labels"]]()
+        ev.labels.append("labels=" + case["labels"])
     if not data.index.is_unique:
         ev.skipped = "non-unique index"
         return ev
